@@ -64,6 +64,116 @@ def edges_ok(forest):
     return bad
 
 
+def stage_macro_position(res, quick):
+    """The expanded document is the directive sequence without the MACRO definitions: where a definition stands is
+    immaterial to where the directives around it land.  Each document is expanded with its definition written
+    between two directives and with the same definition moved to the front; the two forests (definition removed)
+    and the two verdicts must agree, and model and implementation must agree on both."""
+    macro_bodies = [["GET", "  200 any"], ["200 any"], ["Tags @g1"], ["GET /q", "  200 any"], ["Headers", "  {}"]]
+    prefixes = [["URL /a"], ["URL /a", "  GET", "    200 any"], ["URL /a", "  POST", "    200 any"], ["GET /p", "  200 any"],
+                ["URL /a", "(", ")"], ["URL /a", "(", "  POST", "    200 any", ")"], ["TAG @g1", "URL /a"],
+                ["URL /r", "  Protocol json-rpc-2.0", "  Method foo", "    Params", "      {}"]]
+    # what follows the definition is something the FIRST resolution (scan stage, definition still in place) puts at the top
+    # level: a method without a path or a PASTE; the second resolution (definitions removed) decides where it lands
+    tails = [["PASTE @m"], ["GET", "  PASTE @m"], ["GET", "  200 any"], ["POST", "  200 any", "PASTE @m"], ["PUT", "  Tags @g1", "  200 any"],
+             ["DELETE", "(", "  200 any", ")", "PASTE @m"], []]
+    pairs = []
+    for pre in prefixes:
+        for body in macro_bodies:
+            for tail in tails:
+                for paren in (True,):   # a bare definition does not end before a directive its body admits
+                    if paren:
+                        mdef = ["MACRO @m", "("] + ["  " + l for l in body] + [")"]
+                    else:
+                        mdef = ["MACRO @m"] + ["  " + l for l in body]
+                    head = ["JSIGHT 0.3", "TAG @g1"] if "TAG @g1" not in pre else ["JSIGHT 0.3"]
+                    mid = "\n".join(head + pre + mdef + tail) + "\n"
+                    front = "\n".join(head + mdef + pre + tail) + "\n"
+                    pairs.append((mid.encode(), front.encode()))
+    if quick:
+        pairs = pairs[::2] + pairs[1::6]
+    docs = [d for pr_ in pairs for d in pr_]
+    ni, nm, mism = K.compare([[("a.jst", d)] for d in docs], "stage=expand")
+    res.count(len(docs))
+    res.coverage["traces_validated_against_impl"] += len(docs)
+    bad = []
+
+    def strip_macros(forest):
+        return [d for d in forest if d["kind"] != 21]
+
+    agree = 0
+    for k in range(0, len(docs), 2):
+        a, b = ni[k], ni[k + 1]
+        # only pairs in which the implicit MACRO of the `mid` spelling does not swallow the tail are comparable: the
+        # parenthesised definition ends at its ')', the bare one at the first less indented line (all tails are)
+        if a[0] != b[0]:
+            bad.append((k, "the verdict depends on where the MACRO definition stands: %s in the middle, %s in front" % (a[0], b[0])))
+        elif a[0] == "ok":
+            fa, fb = strip_macros(K.parse_forest(a[1])), strip_macros(K.parse_forest(b[1]))
+            sa = K.shape(fa, [("a.jst", docs[k])])
+            sb = K.shape(fb, [("a.jst", docs[k + 1])])
+            if sa != sb:
+                bad.append((k, "the expanded forest depends on where the MACRO definition stands"))
+            else:
+                agree += 1
+                res.nontrivial(("macro-position", k))
+    res.notes["macro_position_pairs"] = {"pairs": len(docs) // 2, "accepted_and_equal": agree}
+    out = []
+    for k, why in bad[:3]:
+        out.append(("context resolution (expansion stage): %s" % why,
+                    {"doc": C.hx(docs[k]), "doc_macro_in_front": C.hx(docs[k + 1]), "stage": "expand", "family": "macro-position"}, True))
+    if not bad and mism:
+        k = mism[0]
+        out.append(("core model and implementation disagree at the expand stage on a document with a MACRO definition between "
+                    "directives (%d disagreements): impl=%r model=%r" % (len(mism), ni[k][:6], nm[k][:6]),
+                    {"correspondence": "directive forest (expand), macro-position family", "doc": C.hx(docs[k])}, False))
+    return out
+
+
+def stage_empty_path(res, quick):
+    """A method written with an empty quoted path (`GET ""`) has no path: it must land where the bare `GET` lands,
+    with the same verdict.  Every context prefix, every method kind, followed by every kind."""
+    methods = ["GET", "POST", "PUT", "PATCH", "DELETE"]
+    prefixes = [["URL /a"], ["URL /a", "("], ["URL /a", "  GET", "    200 any"], [], ["URL /a", "  Query", "    {}"],
+                ["GET /p", "  200 any"], ["URL /a", "(", "  GET", "    200 any"]]
+    followers = [[], ["  200 any"], ["  200 any", "GET"], ["  200 any", "POST", "  200 any"], ["  Tags @g1"], ["  200 any", "Tags @g1"]]
+    pairs = []
+    for pre in prefixes:
+        for m in (methods if not quick else methods[:3]):
+            for fo in followers:
+                closing = [")"] if "(" in pre else []
+                ind = "  " if pre and pre[0].startswith("URL") and "(" not in pre else ""
+                a = ["JSIGHT 0.3", "TAG @g1"] + pre + [ind + m + ' ""'] + [ind + l for l in fo] + closing
+                b = ["JSIGHT 0.3", "TAG @g1"] + pre + [ind + m] + [ind + l for l in fo] + closing
+                pairs.append((("\n".join(a) + "\n").encode(), ("\n".join(b) + "\n").encode()))
+    docs = [d for pr_ in pairs for d in pr_]
+    out = []
+    for stage in ("scan", "expand"):
+        ni, nm, mism = K.compare([[("a.jst", d)] for d in docs], "stage=" + stage)
+        res.count(len(docs))
+        res.coverage["traces_validated_against_impl"] += len(docs)
+        bad = []
+        for k in range(0, len(docs), 2):
+            a, b = ni[k], ni[k + 1]
+            if a[0] != b[0]:
+                bad.append((k, "a method with an empty quoted path is %s where the bare method is %s" % (a[0], b[0])))
+            elif a[0] == "ok":
+                if K.forest_parents(K.parse_forest(a[1])) != K.forest_parents(K.parse_forest(b[1])):
+                    bad.append((k, "a method with an empty quoted path lands elsewhere than the bare method"))
+                else:
+                    res.nontrivial(("empty-path", stage, k))
+        for k, why in bad[:2]:
+            out.append(("context resolution (%s stage): %s" % (stage, why),
+                        {"doc": C.hx(docs[k]), "doc_bare": C.hx(docs[k + 1]), "stage": stage, "family": "empty-path"}, True))
+        if not bad and mism:
+            k = mism[0]
+            out.append(("core model and implementation disagree at the %s stage on a method with an empty quoted path: impl=%r "
+                        "model=%r" % (stage, ni[k][:6], nm[k][:6]),
+                        {"correspondence": "directive forest (%s), empty-path family" % stage, "doc": C.hx(docs[k])}, False))
+    res.notes["empty_path_pairs"] = len(docs) // 2
+    return out
+
+
 def run(res, tier, seed, replay):
     pr = C.prepare("C06", res, need_gens=("tables", "scanner", "typing"))
     rng = random.Random(seed)
@@ -101,6 +211,17 @@ def run(res, tier, seed, replay):
                     seqs.append(pre + [b, "(", ")", k2])
                     if not quick or k2 in (13, 17, 22, 15, 16, 29):
                         seqs.append(pre + [b, "(", 17, ")", k2])
+        # a parenthesised directive that has an EARLIER sibling, then every kind: after the ')' the context is the parent of
+        # the parenthesised directive, not the subtree of the sibling before it (both stages; without macros the second
+        # resolution must reproduce the first)
+        sib_pre = [[0, 7, 8], [0, 7, 8, 15], [0, 7, 24, 25], [0, 7, 24, 25, 26], [0, "P8", 15]]
+        for pre in sib_pre:
+            for m in (9, 10, 25, 15, 14, 16, 18):
+                for inner in ([15], [], [17], [26]):
+                    for k2 in KINDS + ["P9"]:
+                        if quick and k2 not in (29, 13, 15, 16, 17, 18, 22, 8, 9, 25, 26, 4, "P9"):
+                            continue
+                        seqs.append(pre + [m, "("] + inner + [")", k2])
     docs = [K.render_items(s) for s in seqs]
     # the same sequences with the body of a directive written INSIDE the parentheses it opens (`200` / `(` / `{}` / `)`):
     # the same items, so the same forest and the same verdict by the rule
@@ -172,6 +293,10 @@ def run(res, tier, seed, replay):
                           "no violated clause of the property was found in the implementation's forests" % (stage, seqs[k], len(mism), ni[k][:6] if ni[k][0] == "err" else ni[k][1][:300], nm[k][:6] if nm[k][0] == "err" else nm[k][1][:300]),
                           {"correspondence": "directive forest (%s)" % stage, "items": seqs[k], "doc": C.hx(docs[k])}, found_input=False)
     res.sample({"items": [str(x) for x in seqs[len(seqs) // 2]], "doc": docs[len(seqs) // 2].decode()[:200]})
+    if not replay:
+        for what, rp_, found in stage_macro_position(res, quick) + stage_empty_path(res, quick):
+            n_bad += 1
+            res.violation(what, rp_, found_input=found)
     if n_bad:
         return
     if not pr.proof_ok:
